@@ -8,29 +8,32 @@ pub struct HashMap<K, V> { _k: core::marker::PhantomData<K>, _v: core::marker::P
 
 pub uninterp spec fn hm_view<'a>(m: HashMap<SmallString, Cow<'a, str>>) -> Map<Seq<char>, Seq<char>>;
 
-pub type Entries<'a> = Seq<(SmallString, Cow<'a, str>)>;
+/// entries as text pairs (algorithm, hex)
+pub type VS = Seq<(Seq<char>, Seq<char>)>;
+/// the text pairs of a vector of owned entries
+pub open spec fn ev<'a>(es: Seq<(SmallString, Cow<'a, str>)>) -> VS { es.map_values(|e: (SmallString, Cow<'a, str>)| (e.0@, e.1@)) }
 
 /// `es` lists every entry of `m` exactly once (in any order)
 #[verifier::opaque]
-pub open spec fn is_listing<'a>(es: Entries<'a>, m: Map<Seq<char>, Seq<char>>) -> bool {
-    (forall|i: int| 0 <= i < es.len() ==> m.contains_key(#[trigger] es[i].0@) && m[es[i].0@] == es[i].1@)
-    && (forall|i: int, j: int| 0 <= i < j < es.len() ==> #[trigger] es[i].0@ != #[trigger] es[j].0@)
-    && (forall|k: Seq<char>| m.contains_key(k) ==> exists|i: int| 0 <= i < es.len() && #[trigger] es[i].0@ == k)
+pub open spec fn is_listing(es: VS, m: Map<Seq<char>, Seq<char>>) -> bool {
+    (forall|i: int| 0 <= i < es.len() ==> m.contains_key(#[trigger] es[i].0) && m[es[i].0] == es[i].1)
+    && (forall|i: int, j: int| 0 <= i < j < es.len() ==> #[trigger] es[i].0 != #[trigger] es[j].0)
+    && (forall|k: Seq<char>| m.contains_key(k) ==> exists|i: int| 0 <= i < es.len() && #[trigger] es[i].0 == k)
 }
 #[verifier::opaque]
-pub open spec fn sorted_by_key<'a>(es: Entries<'a>) -> bool {
-    forall|i: int, j: int| 0 <= i < j < es.len() ==> str_lt(#[trigger] es[i].0@, #[trigger] es[j].0@)
+pub open spec fn sorted_by_key(es: VS) -> bool {
+    forall|i: int, j: int| 0 <= i < j < es.len() ==> str_lt(#[trigger] es[i].0, #[trigger] es[j].0)
 }
 
 pub open spec fn hex_ok(v: Seq<char>) -> bool { (forall|i: int| 0 <= i < v.len() ==> ascii_hex_c(#[trigger] v[i])) && v.len() % 2 == 0 }
 pub open spec fn entry_text(k: Seq<char>, v: Seq<char>) -> Seq<char> { k + seq![':'] + lower_ascii_seq(v) }
 /// "comma-separated list of algorithm:hex entries", in the order of `es`
-pub open spec fn listing_text<'a>(es: Entries<'a>) -> Seq<char> decreases es.len() {
+pub open spec fn listing_text(es: VS) -> Seq<char> decreases es.len() {
     if es.len() == 0 { Seq::<char>::empty() }
-    else if es.len() == 1 { entry_text(es[0].0@, es[0].1@) }
-    else { listing_text(es.drop_last()) + seq![','] + entry_text(es.last().0@, es.last().1@) }
+    else if es.len() == 1 { entry_text(es[0].0, es[0].1) }
+    else { listing_text(es.drop_last()) + seq![','] + entry_text(es.last().0, es.last().1) }
 }
-pub open spec fn all_hex_ok<'a>(es: Entries<'a>) -> bool { forall|i: int| 0 <= i < es.len() ==> hex_ok(#[trigger] es[i].1@) }
+pub open spec fn all_hex_ok(es: VS) -> bool { forall|i: int| 0 <= i < es.len() ==> hex_ok(#[trigger] es[i].1) }
 
 /// ASSUMED (UTF-8): an all-ASCII string has as many bytes as chars
 #[verifier::external_body]
@@ -64,28 +67,28 @@ pub fn x_hm_insert<'a>(m: &mut HashMap<SmallString, Cow<'a, str>>, k: SmallStrin
 /// `m.into_iter().collect::<Vec<_>>()`: every entry once, in an ARBITRARY order (hash seed, insertion history)
 #[verifier::external_body]
 pub fn x_hm_into_vec<'a>(m: HashMap<SmallString, Cow<'a, str>>) -> (r: Vec<(SmallString, Cow<'a, str>)>)
-    ensures is_listing(r@, hm_view(m))
+    ensures is_listing(ev(r@), hm_view(m))
 { unimplemented!() }
 
 /// what `sort_unstable_by(|a, b| a.0.cmp(&b.0))` does: a permutation, ordered (non-strictly) by the keys
 /// (String::cmp = byte-wise = scalar-value order). Four separately opaque facts (revealing both inclusion directions at once
 /// sends the solver into a matching loop).
 #[verifier::opaque]
-pub open spec fn perm_into<'a>(before: Entries<'a>, after: Entries<'a>) -> bool {
+pub open spec fn perm_into(before: VS, after: VS) -> bool {
     forall|i: int| 0 <= i < before.len() ==> exists|j: int| 0 <= j < after.len() && after[j] == #[trigger] before[i]
 }
 #[verifier::opaque]
-pub open spec fn perm_from<'a>(before: Entries<'a>, after: Entries<'a>) -> bool {
+pub open spec fn perm_from(before: VS, after: VS) -> bool {
     forall|j: int| 0 <= j < after.len() ==> exists|i: int| 0 <= i < before.len() && before[i] == #[trigger] after[j]
 }
 #[verifier::opaque]
-pub open spec fn ordered_by_key<'a>(after: Entries<'a>) -> bool {
-    forall|i: int, j: int| 0 <= i < j < after.len() ==> !str_lt(#[trigger] after[j].0@, #[trigger] after[i].0@)
+pub open spec fn ordered_by_key(after: VS) -> bool {
+    forall|i: int, j: int| 0 <= i < j < after.len() ==> !str_lt(#[trigger] after[j].0, #[trigger] after[i].0)
 }
-pub open spec fn distinct_keys<'a>(es: Entries<'a>) -> bool {
-    forall|i: int, j: int| 0 <= i < j < es.len() ==> #[trigger] es[i].0@ != #[trigger] es[j].0@
+pub open spec fn distinct_keys(es: VS) -> bool {
+    forall|i: int, j: int| 0 <= i < j < es.len() ==> #[trigger] es[i].0 != #[trigger] es[j].0
 }
-pub open spec fn is_sorted_perm<'a>(before: Entries<'a>, after: Entries<'a>) -> bool {
+pub open spec fn is_sorted_perm(before: VS, after: VS) -> bool {
     after.len() == before.len() && perm_into(before, after) && perm_from(before, after) && ordered_by_key(after)
     // a permutation keeps pairwise-distinct keys pairwise distinct
     && (distinct_keys(before) ==> distinct_keys(after))
@@ -94,7 +97,7 @@ pub open spec fn is_sorted_perm<'a>(before: Entries<'a>, after: Entries<'a>) -> 
 /// `v.sort_unstable_by(|a, b| a.0.cmp(&b.0))`
 #[verifier::external_body]
 pub fn x_sort_by_key0<'a>(v: &mut Vec<(SmallString, Cow<'a, str>)>)
-    ensures is_sorted_perm(old(v)@, final(v)@)
+    ensures is_sorted_perm(ev(old(v)@), ev(final(v)@)), final(v)@.len() == old(v)@.len()
 { unimplemented!() }
 
 /// `v.iter().map(|(k, v)| k.len() + 1 + v.len()).sum::<usize>()`; ASSUMED not to overflow (the strings are all in memory)
@@ -110,41 +113,41 @@ pub fn x_extend_ascii_lower(s: &mut String, t: &str)
 { s.extend(t.chars().map(|c| c.to_ascii_lowercase())) }
 
 /// a permutation of a duplicate-free listing, ordered non-strictly, is ordered strictly and is still a listing
-pub proof fn lemma_perm_members<'a>(before: Entries<'a>, after: Entries<'a>, m: Map<Seq<char>, Seq<char>>)
+pub proof fn lemma_perm_members(before: VS, after: VS, m: Map<Seq<char>, Seq<char>>)
     requires is_listing(before, m), is_sorted_perm(before, after)
-    ensures forall|i: int| 0 <= i < after.len() ==> m.contains_key(#[trigger] after[i].0@) && m[after[i].0@] == after[i].1@
+    ensures forall|i: int| 0 <= i < after.len() ==> m.contains_key(#[trigger] after[i].0) && m[after[i].0] == after[i].1
 {
     reveal(is_listing); reveal(perm_from);
-    assert forall|i: int| 0 <= i < after.len() implies m.contains_key(#[trigger] after[i].0@) && m[after[i].0@] == after[i].1@ by {
+    assert forall|i: int| 0 <= i < after.len() implies m.contains_key(#[trigger] after[i].0) && m[after[i].0] == after[i].1 by {
         let k = choose|k: int| 0 <= k < before.len() && before[k] == after[i];
-        assert(m.contains_key(before[k].0@));
+        assert(m.contains_key(before[k].0));
     }
 }
-pub proof fn lemma_perm_covers<'a>(before: Entries<'a>, after: Entries<'a>, m: Map<Seq<char>, Seq<char>>)
+pub proof fn lemma_perm_covers(before: VS, after: VS, m: Map<Seq<char>, Seq<char>>)
     requires is_listing(before, m), is_sorted_perm(before, after)
-    ensures forall|k: Seq<char>| m.contains_key(k) ==> exists|i: int| 0 <= i < after.len() && #[trigger] after[i].0@ == k
+    ensures forall|k: Seq<char>| m.contains_key(k) ==> exists|i: int| 0 <= i < after.len() && #[trigger] after[i].0 == k
 {
     reveal(is_listing); reveal(perm_into);
-    assert forall|k: Seq<char>| m.contains_key(k) implies exists|i: int| 0 <= i < after.len() && #[trigger] after[i].0@ == k by {
-        let b = choose|b: int| 0 <= b < before.len() && #[trigger] before[b].0@ == k;
+    assert forall|k: Seq<char>| m.contains_key(k) implies exists|i: int| 0 <= i < after.len() && #[trigger] after[i].0 == k by {
+        let b = choose|b: int| 0 <= b < before.len() && #[trigger] before[b].0 == k;
         let j = choose|j: int| 0 <= j < after.len() && after[j] == before[b];
-        assert(after[j].0@ == k);
+        assert(after[j].0 == k);
     }
 }
-pub proof fn lemma_perm_strict<'a>(before: Entries<'a>, after: Entries<'a>, m: Map<Seq<char>, Seq<char>>)
+pub proof fn lemma_perm_strict(before: VS, after: VS, m: Map<Seq<char>, Seq<char>>)
     requires is_listing(before, m), is_sorted_perm(before, after)
     ensures
-        forall|i: int, j: int| 0 <= i < j < after.len() ==> #[trigger] after[i].0@ != #[trigger] after[j].0@,
+        forall|i: int, j: int| 0 <= i < j < after.len() ==> #[trigger] after[i].0 != #[trigger] after[j].0,
         sorted_by_key(after),
 {
     reveal(is_listing); reveal(ordered_by_key); reveal(sorted_by_key);
-    assert forall|i: int, j: int| 0 <= i < j < after.len() implies str_lt(#[trigger] after[i].0@, #[trigger] after[j].0@) by {
-        let (a, b) = (after[i].0@, after[j].0@);
+    assert forall|i: int, j: int| 0 <= i < j < after.len() implies str_lt(#[trigger] after[i].0, #[trigger] after[j].0) by {
+        let (a, b) = (after[i].0, after[j].0);
         lemma_lex_eq(a, b);
         lemma_lex_flip(a, b);
     }
 }
-pub proof fn lemma_sorted_listing<'a>(before: Entries<'a>, after: Entries<'a>, m: Map<Seq<char>, Seq<char>>)
+pub proof fn lemma_sorted_listing(before: VS, after: VS, m: Map<Seq<char>, Seq<char>>)
     requires is_listing(before, m), is_sorted_perm(before, after)
     ensures is_listing(after, m), sorted_by_key(after)
 {
@@ -156,26 +159,26 @@ pub proof fn lemma_sorted_listing<'a>(before: Entries<'a>, after: Entries<'a>, m
 
 /// C12: the text does not depend on the order in which the map hands out its entries -- two strictly sorted listings of
 /// the same map are the same sequence of (key text, value text)
-pub proof fn lemma_sorted_listing_unique<'a, 'b>(a: Entries<'a>, b: Entries<'b>, m: Map<Seq<char>, Seq<char>>)
+pub proof fn lemma_sorted_listing_unique(a: VS, b: VS, m: Map<Seq<char>, Seq<char>>)
     requires is_listing(a, m), sorted_by_key(a), is_listing(b, m), sorted_by_key(b)
-    ensures a.len() == b.len(), forall|i: int| 0 <= i < a.len() ==> (#[trigger] a[i]).0@ == b[i].0@ && a[i].1@ == b[i].1@
+    ensures a.len() == b.len(), forall|i: int| 0 <= i < a.len() ==> (#[trigger] a[i]).0 == b[i].0 && a[i].1 == b[i].1
     decreases a.len()
 {
     reveal(is_listing); reveal(sorted_by_key);
     if a.len() == 0 {
-        if b.len() > 0 { assert(m.contains_key(b[0].0@)); let i = choose|i: int| 0 <= i < a.len() && #[trigger] a[i].0@ == b[0].0@; }
+        if b.len() > 0 { assert(m.contains_key(b[0].0)); let i = choose|i: int| 0 <= i < a.len() && #[trigger] a[i].0 == b[0].0; }
     } else if b.len() == 0 {
-        assert(m.contains_key(a[0].0@)); let i = choose|i: int| 0 <= i < b.len() && #[trigger] b[i].0@ == a[0].0@;
+        assert(m.contains_key(a[0].0)); let i = choose|i: int| 0 <= i < b.len() && #[trigger] b[i].0 == a[0].0;
     } else {
         // the largest key is last in both
-        let ka = a.last().0@;
-        let kb = b.last().0@;
-        assert(m.contains_key(a[a.len() - 1].0@));
-        assert(m.contains_key(b[b.len() - 1].0@));
-        let ib = choose|i: int| 0 <= i < b.len() && #[trigger] b[i].0@ == ka;
-        let ia = choose|i: int| 0 <= i < a.len() && #[trigger] a[i].0@ == kb;
-        if ia < a.len() - 1 { assert(str_lt(a[ia].0@, a[a.len() - 1].0@)); }
-        if ib < b.len() - 1 { assert(str_lt(b[ib].0@, b[b.len() - 1].0@)); }
+        let ka = a.last().0;
+        let kb = b.last().0;
+        assert(m.contains_key(a[a.len() - 1].0));
+        assert(m.contains_key(b[b.len() - 1].0));
+        let ib = choose|i: int| 0 <= i < b.len() && #[trigger] b[i].0 == ka;
+        let ia = choose|i: int| 0 <= i < a.len() && #[trigger] a[i].0 == kb;
+        if ia < a.len() - 1 { assert(str_lt(a[ia].0, a[a.len() - 1].0)); }
+        if ib < b.len() - 1 { assert(str_lt(b[ib].0, b[b.len() - 1].0)); }
         if ka != kb {
             // kb < ka (position in a) and ka < kb (position in b): contradiction
             lemma_lt_asym(kb, ka);
@@ -184,55 +187,55 @@ pub proof fn lemma_sorted_listing_unique<'a, 'b>(a: Entries<'a>, b: Entries<'b>,
         let a2 = a.drop_last();
         let b2 = b.drop_last();
         assert(is_listing(a2, m2)) by {
-            assert forall|i: int| 0 <= i < a2.len() implies m2.contains_key(#[trigger] a2[i].0@) && m2[a2[i].0@] == a2[i].1@ by {
-                assert(a2[i] == a[i]); assert(a[i].0@ != a[a.len() - 1].0@);
+            assert forall|i: int| 0 <= i < a2.len() implies m2.contains_key(#[trigger] a2[i].0) && m2[a2[i].0] == a2[i].1 by {
+                assert(a2[i] == a[i]); assert(a[i].0 != a[a.len() - 1].0);
             }
-            assert forall|k: Seq<char>| m2.contains_key(k) implies exists|i: int| 0 <= i < a2.len() && #[trigger] a2[i].0@ == k by {
-                let i = choose|i: int| 0 <= i < a.len() && #[trigger] a[i].0@ == k;
+            assert forall|k: Seq<char>| m2.contains_key(k) implies exists|i: int| 0 <= i < a2.len() && #[trigger] a2[i].0 == k by {
+                let i = choose|i: int| 0 <= i < a.len() && #[trigger] a[i].0 == k;
                 assert(a2[i] == a[i]);
             }
-            assert forall|i: int, j: int| 0 <= i < j < a2.len() implies #[trigger] a2[i].0@ != #[trigger] a2[j].0@ by { assert(a2[i] == a[i]); assert(a2[j] == a[j]); }
+            assert forall|i: int, j: int| 0 <= i < j < a2.len() implies #[trigger] a2[i].0 != #[trigger] a2[j].0 by { assert(a2[i] == a[i]); assert(a2[j] == a[j]); }
         }
         assert(is_listing(b2, m2)) by {
-            assert forall|i: int| 0 <= i < b2.len() implies m2.contains_key(#[trigger] b2[i].0@) && m2[b2[i].0@] == b2[i].1@ by {
-                assert(b2[i] == b[i]); assert(b[i].0@ != b[b.len() - 1].0@);
+            assert forall|i: int| 0 <= i < b2.len() implies m2.contains_key(#[trigger] b2[i].0) && m2[b2[i].0] == b2[i].1 by {
+                assert(b2[i] == b[i]); assert(b[i].0 != b[b.len() - 1].0);
             }
-            assert forall|k: Seq<char>| m2.contains_key(k) implies exists|i: int| 0 <= i < b2.len() && #[trigger] b2[i].0@ == k by {
-                let i = choose|i: int| 0 <= i < b.len() && #[trigger] b[i].0@ == k;
+            assert forall|k: Seq<char>| m2.contains_key(k) implies exists|i: int| 0 <= i < b2.len() && #[trigger] b2[i].0 == k by {
+                let i = choose|i: int| 0 <= i < b.len() && #[trigger] b[i].0 == k;
                 assert(b2[i] == b[i]);
             }
-            assert forall|i: int, j: int| 0 <= i < j < b2.len() implies #[trigger] b2[i].0@ != #[trigger] b2[j].0@ by { assert(b2[i] == b[i]); assert(b2[j] == b[j]); }
+            assert forall|i: int, j: int| 0 <= i < j < b2.len() implies #[trigger] b2[i].0 != #[trigger] b2[j].0 by { assert(b2[i] == b[i]); assert(b2[j] == b[j]); }
         }
-        assert(sorted_by_key(a2)) by { assert forall|i: int, j: int| 0 <= i < j < a2.len() implies str_lt(#[trigger] a2[i].0@, #[trigger] a2[j].0@) by { assert(a2[i] == a[i]); assert(a2[j] == a[j]); } }
-        assert(sorted_by_key(b2)) by { assert forall|i: int, j: int| 0 <= i < j < b2.len() implies str_lt(#[trigger] b2[i].0@, #[trigger] b2[j].0@) by { assert(b2[i] == b[i]); assert(b2[j] == b[j]); } }
+        assert(sorted_by_key(a2)) by { assert forall|i: int, j: int| 0 <= i < j < a2.len() implies str_lt(#[trigger] a2[i].0, #[trigger] a2[j].0) by { assert(a2[i] == a[i]); assert(a2[j] == a[j]); } }
+        assert(sorted_by_key(b2)) by { assert forall|i: int, j: int| 0 <= i < j < b2.len() implies str_lt(#[trigger] b2[i].0, #[trigger] b2[j].0) by { assert(b2[i] == b[i]); assert(b2[j] == b[j]); } }
         lemma_sorted_listing_unique(a2, b2, m2);
-        assert forall|i: int| 0 <= i < a.len() implies (#[trigger] a[i]).0@ == b[i].0@ && a[i].1@ == b[i].1@ by {
+        assert forall|i: int| 0 <= i < a.len() implies (#[trigger] a[i]).0 == b[i].0 && a[i].1 == b[i].1 by {
             if i < a.len() - 1 { assert(a2[i] == a[i]); assert(b2[i] == b[i]); }
         }
     }
 }
 
-pub proof fn lemma_bad_entry<'a>(es: Entries<'a>, m: Map<Seq<char>, Seq<char>>, i: int)
-    requires is_listing(es, m), 0 <= i < es.len(), !hex_ok(es[i].1@)
+pub proof fn lemma_bad_entry(es: VS, m: Map<Seq<char>, Seq<char>>, i: int)
+    requires is_listing(es, m), 0 <= i < es.len(), !hex_ok(es[i].1)
     ensures exists|k: Seq<char>| m.contains_key(k) && !hex_ok(#[trigger] m[k])
 {
     reveal(is_listing);
-    assert(m.contains_key(es[i].0@) && m[es[i].0@] == es[i].1@);
+    assert(m.contains_key(es[i].0) && m[es[i].0] == es[i].1);
 }
-pub proof fn lemma_all_ok<'a>(es: Entries<'a>, m: Map<Seq<char>, Seq<char>>)
-    requires is_listing(es, m), forall|i: int| 0 <= i < es.len() ==> hex_ok(#[trigger] es[i].1@)
+pub proof fn lemma_all_ok(es: VS, m: Map<Seq<char>, Seq<char>>)
+    requires is_listing(es, m), forall|i: int| 0 <= i < es.len() ==> hex_ok(#[trigger] es[i].1)
     ensures forall|k: Seq<char>| m.contains_key(k) ==> hex_ok(#[trigger] m[k])
 {
     reveal(is_listing);
     assert forall|k: Seq<char>| m.contains_key(k) implies hex_ok(#[trigger] m[k]) by {
-        let i = choose|i: int| 0 <= i < es.len() && #[trigger] es[i].0@ == k;
-        assert(m[es[i].0@] == es[i].1@);
+        let i = choose|i: int| 0 <= i < es.len() && #[trigger] es[i].0 == k;
+        assert(m[es[i].0] == es[i].1);
     }
 }
-pub proof fn lemma_listing_text_step<'a>(es: Entries<'a>, i: int)
+pub proof fn lemma_listing_text_step(es: VS, i: int)
     requires 0 <= i < es.len()
     ensures listing_text(es.take(i + 1)) ==
-        (if i == 0 { entry_text(es[i].0@, es[i].1@) } else { listing_text(es.take(i)) + seq![','] + entry_text(es[i].0@, es[i].1@) })
+        (if i == 0 { entry_text(es[i].0, es[i].1) } else { listing_text(es.take(i)) + seq![','] + entry_text(es[i].0, es[i].1) })
 {
     assert(es.take(i + 1).drop_last() == es.take(i));
     assert(es.take(i + 1).last() == es[i]);
@@ -245,9 +248,54 @@ pub proof fn lemma_hex_is_ascii(v: Seq<char>)
     assert forall|i: int| 0 <= i < v.len() implies is_ascii_c(#[trigger] v[i]) by { assert(ascii_hex_c(v[i])); }
     axiom_utf8_len_ascii(v);
 }
-pub proof fn lemma_listing_text_nonempty_iff<'a>(es: Entries<'a>)
+pub proof fn lemma_listing_text_nonempty_iff(es: VS)
     ensures (listing_text(es).len() == 0) ==> es.len() == 0
     decreases es.len()
 {
     if es.len() == 1 { } else if es.len() > 1 { }
+}
+
+/// C04 / C12: THE text form of a set of entries: defined for maps whose every value is an even number of hex digits,
+/// as the text of the strictly sorted listing (unique by lemma_sorted_listing_unique)
+pub open spec fn all_values_hex(m: Map<Seq<char>, Seq<char>>) -> bool { forall|k: Seq<char>| m.contains_key(k) ==> hex_ok(#[trigger] m[k]) }
+pub open spec fn canon_listing(m: Map<Seq<char>, Seq<char>>) -> VS { choose|vs: VS| is_listing(vs, m) && sorted_by_key(vs) }
+pub open spec fn canon_text(m: Map<Seq<char>, Seq<char>>) -> Seq<char> { listing_text(canon_listing(m)) }
+
+pub proof fn lemma_canon_listing(vs: VS, m: Map<Seq<char>, Seq<char>>)
+    requires is_listing(vs, m), sorted_by_key(vs)
+    ensures canon_listing(m) == vs
+{
+    let c = canon_listing(m);
+    lemma_sorted_listing_unique(vs, c, m);
+    assert(vs =~= c) by {
+        assert forall|i: int| 0 <= i < vs.len() implies vs[i] == c[i] by { assert(vs[i].0 == c[i].0 && vs[i].1 == c[i].1); }
+    }
+}
+
+// ---- text -> typed (C12): "split ',', rsplit_once ':', lower-case the algorithm, refuse duplicates" ----
+pub open spec fn ck_fold(pieces: Seq<Seq<char>>) -> Option<Map<Seq<char>, Seq<char>>> decreases pieces.len() {
+    if pieces.len() == 0 { Some(Map::<Seq<char>, Seq<char>>::empty()) } else {
+        match ck_fold(pieces.drop_last()) {
+            None => None,
+            Some(m) => {
+                let p = pieces.last();
+                let i = last_index_of(p, ':');
+                if i < 0 { None }                                             // entry without ':'
+                else if m.contains_key(lower_seq(p.subrange(0, i))) { None }   // algorithm repeated in any case
+                else { Some(m.insert(lower_seq(p.subrange(0, i)), p.subrange(i + 1, p.len() as int))) }
+            },
+        }
+    }
+}
+pub open spec fn ck_parse(text: Seq<char>) -> Option<Map<Seq<char>, Seq<char>>> { ck_fold(split_spec(text, ',')) }
+
+pub proof fn lemma_ck_fold_none(ps: Seq<Seq<char>>, k: int)
+    requires 0 <= k <= ps.len(), ck_fold(ps.take(k)) is None
+    ensures ck_fold(ps) is None
+    decreases ps.len() - k
+{
+    if k < ps.len() {
+        assert(ps.take(k + 1).drop_last() == ps.take(k));
+        lemma_ck_fold_none(ps, k + 1);
+    } else { assert(ps.take(k) == ps); }
 }
